@@ -15,13 +15,17 @@ import (
 	"bufio"
 	"bytes"
 	"context"
+	"crypto/sha256"
+	"encoding/binary"
 	"encoding/json"
 	"errors"
 	"fmt"
 	"io"
+	"math"
 	"os"
 	"os/exec"
 	"path/filepath"
+	"strconv"
 	"strings"
 	"time"
 
@@ -40,12 +44,15 @@ type Job struct {
 	// Mode "trace": one full scan (Units ignored) reporting the offsets after every object.
 	Mode  string `json:"mode"`
 	Units []int  `json:"units"`
+	// Canon: also return the canonical rendering of every object (trace mode; for replays)
+	Canon bool `json:"canon,omitempty"`
 }
 
 // Obs is what one unit of work showed.
 type Obs struct {
-	Unit int      `json:"unit"`
-	Objs []uint64 `json:"objs"` // kind + 4*id, kind 1 node 2 way 3 relation
+	Unit  int      `json:"unit"`
+	Objs  []uint64 `json:"objs"` // kind + 4*hash58(canonical content), kind 1 node 2 way 3 relation
+	Canon []string `json:"canon,omitempty"`
 	// Err: 0 Err()==nil, 1 io.ErrUnexpectedEOF, 2 any other error.
 	Err     int    `json:"err"`
 	ErrText string `json:"err_text,omitempty"`
@@ -67,17 +74,79 @@ type Obs struct {
 	StopShort      bool     `json:"stop_short,omitempty"` // fewer than k objects could be scanned
 }
 
-// Tok is the one-token identity of an object.
+// Tok is the one-token identity of an object: its kind (2 bits) and a 58-bit hash of a canonical
+// rendering of ALL its content (id, coordinates in integer nanodegrees, version, timestamp in ms,
+// changeset, uid, user, visible, tags, way nodes with locations, members).  ElemTok (describe.go)
+// renders the expected element of the description in the same way, so equal tokens mean equal
+// objects field by field.
 func Tok(o osm.Object) uint64 {
 	switch v := o.(type) {
 	case *osm.Node:
-		return 1 + 4*uint64(v.ID)
+		return 1 + 4*hash58(CanonNode(v))
 	case *osm.Way:
-		return 2 + 4*uint64(v.ID)
+		return 2 + 4*hash58(CanonWay(v))
 	case *osm.Relation:
-		return 3 + 4*uint64(v.ID)
+		return 3 + 4*hash58(CanonRelation(v))
 	}
 	return 0
+}
+
+// Canon is the canonical rendering of any object.
+func Canon(o osm.Object) string {
+	switch v := o.(type) {
+	case *osm.Node:
+		return CanonNode(v)
+	case *osm.Way:
+		return CanonWay(v)
+	case *osm.Relation:
+		return CanonRelation(v)
+	}
+	return "?"
+}
+
+func hash58(s string) uint64 {
+	h := sha256.Sum256([]byte(s))
+	return binary.BigEndian.Uint64(h[:8]) >> 6
+}
+
+func nano(f float64) int64 { return int64(math.Round(f * 1e9)) }
+
+func canonMeta(version int, ts time.Time, cs int64, uid int64, user string, visible bool) string {
+	t := "-"
+	if !ts.IsZero() {
+		t = strconv.FormatInt(ts.UnixNano()/1000000, 10)
+	}
+	return fmt.Sprintf("%d|%s|%d|%d|%q|%t", version, t, cs, uid, user, visible)
+}
+
+func canonTags(ts osm.Tags) string {
+	var b strings.Builder
+	for _, t := range ts {
+		fmt.Fprintf(&b, "%q=%q;", t.Key, t.Value)
+	}
+	return b.String()
+}
+
+// CanonNode / CanonWay / CanonRelation: the canonical rendering (also used in replays).
+func CanonNode(n *osm.Node) string {
+	return fmt.Sprintf("n|%d|%d|%d|%s|%s", int64(n.ID), nano(n.Lat), nano(n.Lon),
+		canonMeta(n.Version, n.Timestamp, int64(n.ChangesetID), int64(n.UserID), n.User, n.Visible), canonTags(n.Tags))
+}
+func CanonWay(w *osm.Way) string {
+	var b strings.Builder
+	for _, n := range w.Nodes {
+		fmt.Fprintf(&b, "%d:%d:%d,", int64(n.ID), nano(n.Lat), nano(n.Lon))
+	}
+	return fmt.Sprintf("w|%d|%s|%s|%s", int64(w.ID),
+		canonMeta(w.Version, w.Timestamp, int64(w.ChangesetID), int64(w.UserID), w.User, w.Visible), canonTags(w.Tags), b.String())
+}
+func CanonRelation(r *osm.Relation) string {
+	var b strings.Builder
+	for _, m := range r.Members {
+		fmt.Fprintf(&b, "%s:%d:%q,", string(m.Type), m.Ref, m.Role)
+	}
+	return fmt.Sprintf("r|%d|%s|%s|%s", int64(r.ID),
+		canonMeta(r.Version, r.Timestamp, int64(r.ChangesetID), int64(r.UserID), r.User, r.Visible), canonTags(r.Tags), b.String())
 }
 
 func errClass(err error) int {
@@ -134,6 +203,9 @@ func runUnit(j *Job, u int) Obs {
 		o.PFSB = append(o.PFSB, s.PreviousFullyScannedBytes())
 		for s.Scan() {
 			o.Objs = append(o.Objs, Tok(s.Object()))
+			if j.Canon {
+				o.Canon = append(o.Canon, Canon(s.Object()))
+			}
 			o.FSB = append(o.FSB, s.FullyScannedBytes())
 			o.PFSB = append(o.PFSB, s.PreviousFullyScannedBytes())
 		}
